@@ -25,6 +25,7 @@ RULE = (
     "coincident) x size 1..5 x projection with inverse (linear, rotated and a non-linear Mercator-like one) x extra_coords; explicit coordinates also descending / unsorted. scatter(): regions x sizes 0..4 x seeds 0..3 x projection. Real "
     "gridders (Trend, KNeighbors, Chain, Vector) fitted to asymmetric data are cross-checked against their own predict. "
     "Non-trivial: non-square grids / profiles with >= 2 points."
+    " Added axes: descending / unsorted explicit coordinates, non-linear projection, CheckerBoard naming, region histories (grid / scatter, change of region by set_params / attribute / refit, again) for seven gridders, region / shape / spacing as numpy arrays (purity), thirteen real gridders incl. SciPy gridders and SplineCV, RandomState objects for scatter, grids of 3.7e5 ... 1.2e6 nodes."
 )
 ASSUMPTIONS = ["coordinates are dyadic so the coordinate-encoding value 1000 e + n is exact and decoding is an equality test",
                "coordinate vectors are compared with the exact rational reference of C07 (not with verde's own helper)"]
